@@ -132,7 +132,8 @@ class InducingPointKernel(Kernel):
         cp = self.__class__(
             base_kernel=copy.deepcopy(self.base_kernel),
             inducing_points=copy.deepcopy(self.inducing_points),
-            likelihood=self.likelihood,
+            # Through memo, the copy refers to the copy of the likelihood that belongs to the copied model
+            likelihood=copy.deepcopy(self.likelihood, memo),
             active_dims=self.active_dims,
         )
 
